@@ -79,7 +79,8 @@ Step(e) ==
             quiet == snd \notin closing /\ Receiver(e.dir) \notin closing
             bad == (IF e.n > max /\ e.ok THEN {"C14.oversized-sent"} ELSE {})
                    \cup (IF e.n <= max /\ ~e.ok /\ e.conn /\ quiet THEN {"C14.lost/send-refused"} ELSE {})
-        IN /\ pend' = IF e.ok /\ e.n <= max /\ quiet THEN Append(pend, [dir |-> e.dir, lane |-> e.lane, n |-> e.n, h |-> e.h]) ELSE pend
+        \* (a node that is about to end the session may still get frames out: they are expected on the wire but not owed, see state)
+        IN /\ pend' = IF e.ok /\ e.n <= max THEN Append(pend, [dir |-> e.dir, lane |-> e.lane, n |-> e.n, h |-> e.h]) ELSE pend
            /\ viol' = IF bad = {} THEN viol ELSE Append(viol, Fail(l, bad, [op |-> "send", dir |-> e.dir, n |-> e.n, ok |-> e.ok]))
            /\ stats' = Inc(Inc(Inc(stats, "sends", 1), "refusedbig", IF e.n > max /\ ~e.ok THEN 1 ELSE 0), "lanes", IF e.lane \notin {"0", "ack", "H"} THEN 1 ELSE 0)
            /\ UNCHANGED <<key, max, done, nonces, closing, later, ooo, poisoned>>
@@ -96,7 +97,9 @@ Step(e) ==
     [] e.op \in {"deliver", "wire"} ->
         LET isw == e.op = "wire"
             rcv == Receiver(e.dir)
-            cl == Classify(e.dir, e.n, e.h)
+            \* a frame cut short by the end of the session is not a frame: it is only looked at for its announced length
+            cut == isw /\ e.trunc
+            cl == IF cut THEN <<"cut", 0>> ELSE Classify(e.dir, e.n, e.h)
             afterBig == rcv \in closing /\ cl[1] \in {"unknown", "dup"}
             match == IF poisoned \/ afterBig THEN {}
                      ELSE IF cl[1] = "dup" THEN {"C14.duplicated"}
@@ -107,8 +110,8 @@ Step(e) ==
                    \cup (IF isw /\ Over(e.L, max) THEN {"C14.oversized-sent"} ELSE {})
                    \cup (IF afterBig /\ <<e.dir, e.n, e.h>> \in later THEN {"C14.oversized-frame-session-stays-open/later-frame-delivered"}
                          ELSE IF afterBig /\ e.n <= max THEN {"C14.oversized-frame-session-stays-open"} ELSE {})
-            nz == IF isw /\ <<Sender(e.dir), e.nonce>> \in nonces THEN {"C14.nonce-reused"} ELSE {}
-            enc == IF ~isw \/ e.n = 0 \/ Over(e.L, max) THEN {}
+            nz == IF isw /\ <<Sender(e.dir), e.nonce>> \in nonces THEN {"C14.nonce-reused"} ELSE {}   \* (also for a cut frame: its nonce was drawn)
+            enc == IF ~isw \/ cut \/ e.n = 0 \/ Over(e.L, max) THEN {}
                    ELSE IF Has(e, "ct") /\ Has(e, "pt")
                         THEN (IF Bytes(e.ct) # res' THEN {"C14.cipher-mismatch"} ELSE {})
                              \cup (IF Bytes(e.ct) = Bytes(e.pt) /\ res' # Bytes(e.pt) THEN {"C14.plaintext-on-wire"} ELSE {})
@@ -130,8 +133,10 @@ Step(e) ==
     [] e.op = "state" ->
         LET flag(x) == IF x = "A" THEN e.ca ELSE e.cb
             open == {x \in closing : flag(x) = 1 \/ ~e.hc}
-            bad == (IF ~poisoned /\ pend # <<>> THEN {"C14.lost"} ELSE {})
-                   \cup (IF ~poisoned /\ pend = <<>> /\ ooo THEN {"C14.reordered"} ELSE {})
+            \* what a node had in flight when it ended the session over an oversized announcement is not covered by the statement
+            owed == {i \in 1..Len(pend) : Sender(pend[i].dir) \notin closing}
+            bad == (IF ~poisoned /\ owed # {} THEN {"C14.lost"} ELSE {})
+                   \cup (IF ~poisoned /\ owed = {} /\ ooo THEN {"C14.reordered"} ELSE {})
                    \cup (IF open # {} THEN {"C14.oversized-frame-session-stays-open"} ELSE {})
                    \cup (IF closing # {} /\ Over(e.alloc, max + 4096) THEN {"C14.oversized-buffered"} ELSE {})
         IN /\ viol' = IF bad = {} THEN viol ELSE Append(viol, Fail(l, bad, [op |-> "state", pending |-> Len(pend), ca |-> e.ca, cb |-> e.cb, hc |-> e.hc, timedout |-> e.timedout]))
